@@ -25,10 +25,13 @@ type GenOpts struct {
 	MaxStr   int // longest string
 	// Supported restricts CBOR values to the library's documented subset.
 	TopContainer bool // top-level value must be a container
+	// Big occasionally (1 run in ~40) draws one string/key/container whose
+	// length sits at a wire-format width boundary (255/256, 65535/65536).
+	Big bool
 }
 
-func QuickOpts() GenOpts    { return GenOpts{MaxDepth: 4, MaxElems: 5, Budget: 14, MaxStr: 80} }
-func ThoroughOpts() GenOpts { return GenOpts{MaxDepth: 40, MaxElems: 12, Budget: 60, MaxStr: 700} }
+func QuickOpts() GenOpts    { return GenOpts{MaxDepth: 4, MaxElems: 5, Budget: 14, MaxStr: 80, Big: true} }
+func ThoroughOpts() GenOpts { return GenOpts{MaxDepth: 40, MaxElems: 12, Budget: 60, MaxStr: 700, Big: true} }
 
 var intBoundaries = []int64{0, 1, -1, 23, 24, -24, -25, 127, 128, -128, -129, 255, 256, -256, -257,
 	32767, 32768, -32768, -32769, 65535, 65536, -65536, -65537,
@@ -239,6 +242,39 @@ type genState struct {
 	f      Format
 	o      GenOpts
 	budget int
+	big    int // 0: not decided, 1: this document gets one boundary-sized item, 2: done / none
+}
+
+var bigLens = []int{255, 256, 257, 127, 128, 255, 256, 1000, 255, 256, 257, 128, 65535, 65536, 65537, 300}
+
+// bigLen returns a boundary length once per document (else -1).
+func (g *genState) bigLen() int {
+	if !g.o.Big || g.big == 2 {
+		return -1
+	}
+	if g.big == 0 {
+		g.big = 2
+		if g.c.N(60) == 0 {
+			g.big = 1
+		}
+	}
+	if g.big == 1 && g.c.N(3) == 0 {
+		g.big = 2
+		return bigLens[g.c.N(len(bigLens))]
+	}
+	return -1
+}
+
+func repeatText(c *simkit.Choices, n int) string {
+	unit := []string{"a", "ab", "\u00e9", "x\"y", "\n"}[c.N(5)]
+	var sb strings.Builder
+	for sb.Len()+len(unit) <= n {
+		sb.WriteString(unit)
+	}
+	for sb.Len() < n {
+		sb.WriteByte('z')
+	}
+	return sb.String()
 }
 
 // GenVal draws a value that format f can carry as a *valid, supported*
@@ -266,6 +302,28 @@ func (g *genState) val(depth int) Val {
 
 func (g *genState) container(depth int) Val {
 	c := g.c
+	if depth <= 1 {
+		if n := g.bigLen(); n >= 0 {
+			// a wide container: the element count sits at a width boundary
+			small := []Val{{K: VNull}, Bool(true), Int(1), Int(-1), Int(300)}[c.N(5)]
+			if c.Bool() {
+				v := Val{K: VArr, A: make([]Val, n)}
+				for i := range v.A {
+					v.A[i] = small
+				}
+				return v
+			}
+			if n > 1000 {
+				n = 1000 // objects: keys make them long enough
+			}
+			v := Val{K: VObj, A: make([]Val, n), Keys: make([]string, n)}
+			for i := range v.A {
+				v.A[i] = small
+				v.Keys[i] = "k" + string(rune('a'+i%26))
+			}
+			return v
+		}
+	}
 	n := c.Small(g.o.MaxElems)
 	// deep chains: occasionally build a narrow deep nest
 	if depth == 0 && c.N(16) == 0 {
@@ -312,6 +370,12 @@ func (g *genState) container(depth int) Val {
 
 func (g *genState) scalar() Val {
 	c := g.c
+	if n := g.bigLen(); n >= 0 {
+		if g.f == CBOR && c.N(3) == 0 {
+			return Val{K: VBytes, S: repeatText(c, n)}
+		}
+		return Text(repeatText(c, n))
+	}
 	switch g.f {
 	case JSON:
 		switch c.N(10) {
